@@ -201,7 +201,10 @@ def compile_col_expr(
                 descending=descending,
                 nulls_last=[nl if nl is not None else False for nl in nulls_last],
             )
-            value = value.sort_by(inv_permutation)
+            # `gather` instead of `sort_by`: when a later verb does not maintain the row order
+            # (join, group_by), polars considers a trailing `sort_by` order-only and drops it,
+            # which leaves the values in sorted order, i.e. attached to the wrong rows.
+            value = value.gather(inv_permutation.arg_sort())
 
         return value
 
